@@ -42,6 +42,15 @@ impl StressRunner {
         let cache: Cache<TK, TV, VBuild> = build_sync(&self.cfg);
         let clock = MockClock::default();
         cache.verif_set_clock(&clock);
+        // optionally leave the periodic-sync interval of the clock before the threads start
+        let adv = arg(toks, "adv", 0);
+        if adv > 0 {
+            clock.advance(dur_ns(adv as u128));
+        }
+        let wr = arg(toks, "writes", 40);
+        let quiet = arg(toks, "quiet", 0) == 1;
+        let tick = arg(toks, "tick", 0);
+        let clock = Arc::new(clock);
         let counters = Arc::new(Counters::default());
         let ticket = Arc::new(AtomicU64::new(1));
         let records: Arc<Mutex<Vec<String>>> = Arc::new(Mutex::new(Vec::new()));
@@ -51,24 +60,29 @@ impl StressRunner {
             let cn = counters.clone();
             let ticket = ticket.clone();
             let records = records.clone();
+            let clock = clock.clone();
             hs.push(std::thread::spawn(move || {
                 let mut rng = Lcg(seed.wrapping_mul(1000003).wrapping_add(t));
                 let mut local = Vec::new();
                 for i in 0..nops {
+                    if tick > 0 {
+                        // keep the clock beyond the periodic-sync interval of the last maintenance run
+                        clock.advance(dur_ns(tick as u128));
+                    }
                     let k = 1 + rng.next() % keys;
                     let r = rng.next() % 100;
                     let start = ticket.fetch_add(1, Ordering::SeqCst);
-                    let (op, res) = if r < 40 {
+                    let (op, res) = if r < wr {
                         let v = 1000 * (t + 1) * 1000 + i; // unique per write
                         cache.insert(TK::new(k, &cn), TV::new(v, &cn));
                         (format!("I {} {}", k, v), "-".to_string())
-                    } else if r < 85 {
+                    } else if r < wr + 45 {
                         let res = match cache.get(&TK::new(k, &cn)) {
                             Some(v) => v.v.to_string(),
                             None => "-".to_string(),
                         };
                         (format!("G {}", k), res)
-                    } else if r < 95 {
+                    } else if r < wr + 55 {
                         cache.invalidate(&TK::new(k, &cn));
                         (format!("X {}", k), "-".to_string())
                     } else {
@@ -76,7 +90,9 @@ impl StressRunner {
                         ("S".to_string(), "-".to_string())
                     };
                     let end = ticket.fetch_add(1, Ordering::SeqCst);
-                    local.push(format!("op t{} {} {} -> {} start={} end={} lin=-", t, i, op, res, start, end));
+                    if !quiet {
+                        local.push(format!("op t{} {} {} -> {} start={} end={} lin=-", t, i, op, res, start, end));
+                    }
                 }
                 records.lock().unwrap().extend(local);
             }));
